@@ -97,6 +97,14 @@ def limit_programs(quick):
             else:
                 exp = ("reject",) if far else ("obs", obs)
             P.append(("jump-%s-%d" % (form, n), tmpl % body, exp, "binary" if n > 5000 else "probe"))
+    # ---- the short-circuit jump (&&, ||, filter pattern -> action) over a long right operand / action
+    for n, far in ((15000, False), (22000, True)):
+        arr = "[" + ", ".join("a" for _ in range(n)) + "]"
+        body = " ".join("a;" for _ in range(n))
+        P.append(("jump-and-direct-%d" % n, "let a = 1; fn f(c) { c && %s } let z = 1;" % arr, ("reject",) if far else ("accept",), "binary"))
+        P.append(("jump-or-direct-%d" % n, "let a = 1; fn f(c) { c || %s } let z = 1;" % arr, ("reject",) if far else ("accept",), "binary"))
+        P.append(("jump-and-toplevel-%d" % n, "let a = 1; let c = false; let r = c && %s; let z = 1;" % arr, ("reject",) if far else ("accept",), "binary"))
+        P.append(("jump-filter-action-%d" % n, "let a = 1; @ PL > 100000 { %s } let z = 1;" % body, ("reject",) if n * 4 > 65535 else ("accept",), "binary"))
     # ---- globals
     if not quick:
         for n in (65534, 65536, 65540):
